@@ -76,3 +76,76 @@ def set_debug_logging(on):
     """the user script's logging configuration: DEBUG for the library's loggers (records go to a null handler) or,
     by default, nothing below CRITICAL. A knob of the world, set at the start of every simulated run."""
     logging.getLogger("robotools").setLevel(logging.DEBUG if on else logging.CRITICAL)
+
+
+KEEP_STATE = False  # True while a recorded script is executed once more "in the same process" (warm-up replays)
+_state_snapshot = None
+
+
+def _containers(owner):
+    out = {}
+    for name, val in list(vars(owner).items()):
+        if name.startswith("__"):
+            continue
+        if isinstance(val, (dict, list, set)):
+            out[name] = val
+    return out
+
+
+def reset_library_state():
+    """Puts the Python-level state of the library's modules and classes back to what it was right after import:
+    functools caches emptied, module-level and class-level dicts / lists / sets restored (in place), containers that
+    appeared later removed. Every simulated run thereby starts in a library that has not been used before - runs are
+    independent of each other and of which worker process they happen to be executed in. A defect that lives in
+    such state is still found, reproducibly: one run in twenty executes its recorded script a second time *without*
+    this reset (see check._worker), which is what `"warmup": n` in a replay file means."""
+    global _state_snapshot
+    import copy
+
+    clear_function_caches()
+    if _state_snapshot is None:
+        snap = []
+        for name, mod in list(sys.modules.items()):
+            if mod is None or not (name == "robotools" or name.startswith("robotools.")):
+                continue
+            snap.append((mod, {k: copy.deepcopy(v) for k, v in _containers(mod).items()}))
+            for obj in list(vars(mod).values()):
+                if isinstance(obj, type) and str(getattr(obj, "__module__", "")).startswith("robotools"):
+                    try:
+                        snap.append((obj, {k: copy.deepcopy(v) for k, v in _containers(obj).items()}))
+                    except Exception:  # noqa
+                        pass
+        _state_snapshot = snap
+        return
+    for owner, saved in _state_snapshot:
+        try:
+            cur = _containers(owner)
+        except Exception:  # noqa
+            continue
+        for k, v in cur.items():
+            if k not in saved:
+                if k.startswith("_"):
+                    try:
+                        delattr(owner, k)
+                    except Exception:  # noqa
+                        pass
+                continue
+            s = saved[k]
+            if type(v) is type(s) and v != s:
+                try:
+                    if isinstance(v, dict):
+                        v.clear()
+                        v.update(copy.deepcopy(s))
+                    elif isinstance(v, list):
+                        v[:] = copy.deepcopy(s)
+                    else:
+                        v.clear()
+                        v.update(copy.deepcopy(s))
+                except Exception:  # noqa
+                    pass
+        for k, s in saved.items():
+            if k not in cur:
+                try:
+                    setattr(owner, k, copy.deepcopy(s))
+                except Exception:  # noqa
+                    pass
